@@ -139,7 +139,7 @@ class UnitChecker:
             d = dotted(e)
             if isinstance(e.value, ast.Name) and e.attr in self.self_attrs:
                 return self.self_attrs[e.attr]
-            if e.attr == 'shape':
+            if e.attr in ('shape', 'size', 'ndim'):
                 return SCAL
             return ANY
         if isinstance(e, ast.Subscript):
@@ -276,6 +276,19 @@ class UnitChecker:
             t = args[0] if args else ANY
             if isinstance(t, Ty) and t.w != 0:
                 self.err(f"{base}() of a time point ({t})", e)
+            return t
+        if base == 'square':
+            t = args[0] if args else ANY
+            if isinstance(t, Ty):
+                if t.w != 0:
+                    self.err(f"square of a time point ({t})", e)
+                return Ty(Fraction(0), t.k * 2)
+            return t
+        if base in ('diff', 'ediff1d'):
+            # consecutive differences: a duration for time points, the same type otherwise
+            t = args[0] if args else ANY
+            if isinstance(t, Ty):
+                return Ty(Fraction(0), t.k)
             return t
         if base == 'sqrt':
             t = args[0] if args else ANY
